@@ -7,9 +7,10 @@ open IblVerif IblVerif.Proto IblVerif.FsCompress
 Line protocol of C02 (stateful: the directory of the current case).
 
   init <n> bin|cbin|both            directory of a recording of n chunks (raw chunk ids 0..n-1, compressed 1000..)
-  compress <fb> <keep> <fault>      Reader.compress_file       fb: bin|cbin   keep: 0|1   fault: chunks written before the exception, or N
+  compress <fb> <keep> <fault> <rf> Reader.compress_file       fb: bin|cbin   keep: 0|1   fault: chunks written before the exception, or N
+                                    rf: 1 = the rename x.cbin_tmp -> x.cbin raises
   decompress <fb> <keep> <ov> <fault>   Reader.decompress_file (default out)
-  toscratch <fb> <scratch> <fault>  Reader.decompress_to_scratch (scratch: 0 = in place, 1 = scratch dir)
+  toscratch <fb> <scratch> <fault> <mf>  Reader.decompress_to_scratch (scratch: 0 = in place, 1 = scratch dir; mf: 1 = shutil.move raises)
   rewrite <v> <n>                   the environment replaces x.bin by version v of the recording (chunk ids 100v .. 100v+n-1)
   open <entry>                      spikeglx.Reader(entry)     entry: bin|cbin|meta
   slice <sizes> <start> <stop> <step>   _raw[start:stop:step] on both backends; rows are numbered 0.. ; N = None
@@ -33,7 +34,7 @@ def showFs (s : Fs Nat Nat) : String :=
 
 def showErr : Err → String
   | .assertion => "AssertionError" | .fileNotFound => "FileNotFoundError" | .valueError => "ValueError"
-  | .runtime => "RuntimeError" | .corruptHeader => "CorruptHeader" | .fault => "Fault"
+  | .runtime => "RuntimeError" | .osError => "OSError" | .corruptHeader => "CorruptHeader" | .fault => "Fault"
 
 def showOutcome : Outcome → String
   | .ok => "ok" | .err e => "err " ++ showErr e
@@ -94,18 +95,18 @@ def step (s : Hist Nat Nat) (t : List String) : Hist Nat Nat × String :=
       | some s' => ({ fs := s', versions := [b], cur := b }, showFs s')
       | none => (s, "bad-op")
     | none => (s, "bad-op")
-  | ["compress", fb, keep, fault] =>
-    match name? fb, bool? keep, fault? fault with
-    | some fb, some keep, some fault => answer s (.compress fb keep fault)
-    | _, _, _ => (s, "bad-op")
+  | ["compress", fb, keep, fault, rf] =>
+    match name? fb, bool? keep, fault? fault, bool? rf with
+    | some fb, some keep, some fault, some rf => answer s (.compress fb keep fault rf)
+    | _, _, _, _ => (s, "bad-op")
   | ["decompress", fb, keep, ov, fault] =>
     match name? fb, bool? keep, bool? ov, fault? fault with
     | some fb, some keep, some ov, some fault => answer s (.decompress fb keep ov fault)
     | _, _, _, _ => (s, "bad-op")
-  | ["toscratch", fb, scratch, fault] =>
-    match name? fb, bool? scratch, fault? fault with
-    | some fb, some scratch, some fault => answer s (.toScratch fb scratch fault)
-    | _, _, _ => (s, "bad-op")
+  | ["toscratch", fb, scratch, fault, mf] =>
+    match name? fb, bool? scratch, fault? fault, bool? mf with
+    | some fb, some scratch, some fault, some mf => answer s (.toScratch fb scratch fault mf)
+    | _, _, _, _ => (s, "bad-op")
   | ["rewrite", v, n] =>
     match nat? v, nat? n with
     | some v, some n =>
